@@ -75,6 +75,7 @@ type echScn struct {
 	MaxLen  int    `json:"maxlen"`  // maximum_name_length
 	Server  string `json:"server"`  // accept | hrr | reject | reject_hrr | noech
 	HRRGrp  int    `json:"hrr_group"`
+	Cookie  int    `json:"cookie"` // length of the cookie the HelloRetryRequest carries (0 = none)
 	NRetry  int    `json:"nretry"` // rejecting server: number of its configs flagged SendAsRetry (it has one more that is not)
 	Cert    string `json:"cert"`   // sn | pub | both | neither : names the server's certificate is valid for
 	MinVer  int    `json:"minver"` // client Config.MinVersion (0 = unset)
@@ -265,7 +266,15 @@ func runECH(s *echScn, raw json.RawMessage, store *certStore) []map[string]any {
 		add(map[string]any{"ev": "SrvName", "name": hlib.Ints([]byte(chi.ServerName))})
 		return nil, nil
 	}
+	var hrrCookie []byte
+	if s.Cookie > 0 && (s.Server == "hrr" || s.Server == "reject_hrr") {
+		hrrCookie = make([]byte, s.Cookie)
+		if _, err := rand.Read(hrrCookie); err != nil {
+			return fail(err)
+		}
+	}
 	tls.VerifSetOverride(scfg, &tls.VerifOverride{
+		HRRCookie: hrrCookie,
 		Emit: func(ev string, data []byte) {
 			add(map[string]any{"ev": "H9", "what": ev, "raw": hlib.Ints(data)})
 		},
